@@ -33,7 +33,7 @@ var ModuleNamespace = map[string]string{"vfa": "urn:verif:a", "vfb": "urn:verif:
 
 // LeafLists are the schema paths of leaf-lists.
 var LeafLists = map[string]bool{
-	"/sys/dns": true, "/cons/mm": true, "/cons/mmin": true, "/cons/lrefs": true,
+	"/sys/dns": true, "/if/addrs": true, "/cons/mm": true, "/cons/mmin": true, "/cons/lrefs": true,
 	"/types/ll-str": true, "/types/ll-u64": true, "/types/ll-i8": true, "/types/ll-d2": true, "/types/ll-en": true, "/types/ll-idref": true, "/types/ll-bool": true,
 }
 
